@@ -245,7 +245,7 @@ def run_callgrind(ctx, exe, st, tier, seed, outdir, datadir, known, pid):
             res.append(result(st["name"], i, 2, None, log))
             continue
         if i == 0:
-            data["exhaustive"].append(dict(space="C06 work measurement: %d entry points x 16 input shapes x sizes %s (instruction counts, deterministic)" % (len(ENTRY_NAMES), sizes), size=len(ENTRY_NAMES) * 16 * len(sizes)))
+            data["exhaustive"].append(dict(space="C06 work measurement: %d entry points x 22 input shapes x sizes %s (instruction counts, deterministic)" % (len(ENTRY_NAMES), sizes), size=len(ENTRY_NAMES) * 22 * len(sizes)))
         res.append(result(st["name"], i, 3 if data["failures"] else 0, data, log))
     return res
 
@@ -253,7 +253,7 @@ def run_callgrind(ctx, exe, st, tier, seed, outdir, datadir, known, pid):
 def replay_callgrind(ctx, case):
     e, k = [int(x) for x in case.split("cg=", 1)[1].split()[0].split(":")]
     sizes = [16, 4096, 8192, 16384, 32768, 65536]
-    rc, log, meas = callgrind_measure(ctx["exes"]["work"], os.path.join(ctx["scr"].dir, "out", "cg-replay"), e * 16 + k, 19 * 16, sizes)
+    rc, log, meas = callgrind_measure(ctx["exes"]["work"], os.path.join(ctx["scr"].dir, "out", "cg-replay"), e * 22 + k, 19 * 22, sizes)
     fails, _ = judge_linear(meas, sizes)
     if fails:
         return 3, "REPLAY-FAIL " + "; ".join(f[3] for f in fails[:3])
